@@ -12,7 +12,7 @@ package memmetrics
 //@ spec slot(t int, r int) int
 //@ axiom slot_def: forall t int, r int :: r >= 1 ==> slot(t, r) == (t - zerotime) / r
 //@ spec bkt(s int, r int, n int) int
-//@ axiom bkt_def: forall s int, r int, n int :: r >= 1 && n >= 1 ==> bkt(s, r, n) == ((zerotime + s * r) / 1000000000) % n
+//@ axiom bkt_def: forall s int, r int, n int :: r >= 1 && n >= 1 ==> bkt(s, r, n) == ((zerotime + s * r) / r) % n
 
 //@ lemma slot_step: forall a int, b int, r int {slot(a, r), slot(b, r)} :: r >= 1 && a == b - r ==> slot(a, r) == slot(b, r) - 1
 //@ lemma trunc_after: forall t1 int, t2 int, r int {slot(t1, r), slot(t2, r)} :: r >= 1 ==> ((t1 - ((t1 - zerotime) % r) > t2 - ((t2 - zerotime) % r)) <==> slot(t1, r) > slot(t2, r))
@@ -70,7 +70,9 @@ package memmetrics
 //@   requires cfgOK(c) && cleanAt(c, lastclock) && lastclock >= (len(c.values) + 1) * c.resolution && (forall s int :: s > sl(c, c.lastUpdated) ==> c.gsum[s] == 0)
 //@   modifies elems(c.values), c.lastUpdated, c.countedBuckets, c.lastBucket, c.gsum[sl(c, lastclock)]
 //@   ghost_ensures c.gsum[sl(c, lastclock)] == old(c.gsum[sl(c, lastclock)]) + v
-//@   ensures keeps_invariant: RC(c) && c.lastUpdated == lastclock
+//@   ensures stamped: c.lastUpdated == lastclock
+//@   ensures window_matches: cleanAt(c, lastclock)
+//@   ensures nothing_newer: forall s int :: s > sl(c, lastclock) ==> c.gsum[s] == 0
 
 //@ func (*RollingCounter).Inc
 //@   props C17
